@@ -43,8 +43,8 @@ def gen_cases(tier, seed):
         cases += mapcases.random_large_cases(rng, 24, max_leaves=14,
                                              max_cells=40)
     else:
-        cases = mapcases.nasty_quick_cases(rng, 200)
-        cases += mapcases.random_large_cases(rng, 380, max_leaves=16,
+        cases = mapcases.nasty_quick_cases(rng, 1600)
+        cases += mapcases.random_large_cases(rng, 2400, max_leaves=16,
                                              max_cells=120)
         # a few big ones: 300 cells x 80 genes x 12 leaves
         for i in range(20):
